@@ -351,14 +351,14 @@ class BitArray(Bits):
 
         """
         bs = self._create_from_bitstype(bs)
-        if len(bs) == 0:
-            return
         if bs is self:
             bs = self._copy()
         if pos < 0:
             pos += len(self)
         if not 0 <= pos <= len(self):
             raise ValueError("Invalid insert position.")
+        if len(bs) == 0:
+            return
         self._insert(bs, pos)
 
     def overwrite(self, bs: BitsType, pos: int) -> None:
@@ -371,14 +371,14 @@ class BitArray(Bits):
 
         """
         bs = self._create_from_bitstype(bs)
-        if len(bs) == 0:
-            return
         if bs is self:
             bs = self._copy()
         if pos < 0:
             pos += len(self)
         if pos < 0 or pos > len(self):
             raise ValueError("Overwrite starts outside boundary of bitstring.")
+        if len(bs) == 0:
+            return
         self._overwrite(bs, pos)
 
     def append(self, bs: BitsType) -> None:
